@@ -60,7 +60,7 @@ theorem glob_write {s : State} {i : Nat} {th th' : Th} {f : Fld} {sh' : Sh}
     (hrace : sh'.race = (s.sh.race || races s.sh.hist th.hb (mkAcc i f true false s.sh)))
     (e_t : sh'.t = s.sh.t) (e_tg : sh'.tg = s.sh.tg) (e_m : sh'.m = s.sh.m) (e_w : sh'.w = s.sh.w)
     (e_r : sh'.r = s.sh.r) (e_relW : sh'.relW = s.sh.relW) (e_relR : sh'.relR = s.sh.relR)
-    (hflag : sh'.wl = true ∨ sh'.wp = true)
+    (hflag : sh'.wl = true ∨ sh'.wp = true ∨ sh'.wc = true)
     (hl : sh'.l = (if sh'.wl then 1 else 0)) (hp : sh'.p = (if sh'.wp then 1 else 0))
     (hhb : th'.hb = s.sh.hist.length :: th.hb) :
     Glob ⟨sh', s.ths.set i th'⟩ := by
@@ -171,11 +171,11 @@ theorem inv_writeL {s : State} {i : Nat} {th : Th} {a : Abs} {K : Prog}
       exact (hG.gRaw ht).2.2
     · rfl
   · refine ⟨_, hK, ?_⟩
-    refine { hW := hok.hW, hR := hok.hR, lkHeld := hok.lkHeld, wlw := ?_, wlH := fun _ => hW, wpH := hok.wpH,
+    refine { hW := hok.hW, hR := hok.hR, lkHeld := hok.lkHeld, wlw := ?_, wlH := fun _ => hW, wpH := hok.wpH, wcH := hok.wcH,
              nofault := hok.nofault, mread := hok.mread, lv := hok.lv, tvok := hok.tvok, know := ?_,
              view := viewOK_congr hok.view rfl rfl rfl }
     · intro _
-      exact ⟨rfl, hflags.2⟩
+      exact ⟨rfl, hflags.2.1, hflags.2.2⟩
     · unfold KnowOK
       simp only [hk]
       exact ⟨s.sh.tg, htv, fun _ => ⟨ht, rfl⟩⟩
@@ -192,17 +192,47 @@ theorem inv_writeP {s : State} {i : Nat} {th : Th} {a : Abs} {K : Prog}
   have hflags := hok.wlw hW
   simp only [execOp]
   apply inv_update hI hth
-  · apply glob_write (f := .p) (sh' := { s.sh.record th.hb (mkAcc i .p true false s.sh) with p := genOf th + 1, wp := true }) hG hth hw ht (by decide) (by decide) rfl rfl rfl rfl rfl rfl rfl rfl rfl (Or.inr rfl)
+  · apply glob_write (f := .p) (sh' := { s.sh.record th.hb (mkAcc i .p true false s.sh) with p := genOf th + 1, wp := true }) hG hth hw ht (by decide) (by decide) rfl rfl rfl rfl rfl rfl rfl rfl rfl (Or.inr (Or.inl rfl))
     · simp only [Sh.record]
       exact (hG.gRaw ht).2.1
     · simp only [Sh.record, hg]; rfl
     · rfl
   · refine ⟨_, hK, ?_⟩
-    refine { hW := hok.hW, hR := hok.hR, lkHeld := hok.lkHeld, wlw := ?_, wlH := hok.wlH, wpH := fun _ => hW,
+    refine { hW := hok.hW, hR := hok.hR, lkHeld := hok.lkHeld, wlw := ?_, wlH := hok.wlH, wpH := fun _ => hW, wcH := hok.wcH,
              nofault := hok.nofault, mread := hok.mread, lv := hok.lv, tvok := hok.tvok, know := ?_,
              view := viewOK_congr hok.view rfl rfl rfl }
     · intro _
-      exact ⟨hflags.1, rfl⟩
+      exact ⟨hflags.1, rfl, hflags.2.2⟩
+    · unfold KnowOK
+      simp only [hk]
+      exact ⟨s.sh.tg, htv, fun _ => ⟨ht, rfl⟩⟩
+  · intro j thj aj hji hj hokj
+    exact hokj.frame_write hji hw (hG.excl i hw) ht rfl rfl
+
+
+/-- the parser building the children (container, child slots) under the write lock, before assign -/
+theorem inv_writeC {s : State} {i : Nat} {th : Th} {a : Abs} {K : Prog}
+    (hI : Inv pf s) (hth : s.ths[i]? = some th) (hok : ThOK i s.sh th a)
+    (hc : a.canWrite = true) (hK : safe pf { a with wc := true } K = true) :
+    Inv pf ⟨(execOp i s.sh th .writeC K).1, s.ths.set i (execOp i s.sh th .writeC K).2⟩ := by
+  have hG := hI.1
+  obtain ⟨hk, hlk, hW, hw, ht, htv⟩ := canWrite_info hok hc
+  have hflags := hok.wlw hW
+  simp only [execOp]
+  apply inv_update hI hth
+  · apply glob_write (f := .c) (sh' := { s.sh.record th.hb (mkAcc i .c true false s.sh) with wc := true }) hG hth hw ht (by decide) (by decide) rfl rfl rfl rfl rfl rfl rfl rfl rfl (Or.inr (Or.inr rfl))
+    · simp only [Sh.record]
+      exact (hG.gRaw ht).2.1
+    · simp only [Sh.record]
+      exact (hG.gRaw ht).2.2
+    · rfl
+  · refine ⟨_, hK, ?_⟩
+    refine { hW := hok.hW, hR := hok.hR, lkHeld := hok.lkHeld, wlw := ?_, wlH := hok.wlH, wpH := hok.wpH,
+             wcH := fun _ => hW,
+             nofault := hok.nofault, mread := hok.mread, lv := hok.lv, tvok := hok.tvok, know := ?_,
+             view := viewOK_congr hok.view rfl rfl rfl }
+    · intro _
+      exact ⟨hflags.1, hflags.2.1, rfl⟩
     · unfold KnowOK
       simp only [hk]
       exact ⟨s.sh.tg, htv, fun _ => ⟨ht, rfl⟩⟩
